@@ -225,6 +225,8 @@ def b_engine(job):
         body = G.dlgraph_history(g, rng)
     elif mode == "diamond":
         body = G.diamond_history(g, rng)
+    elif mode == "guarded":
+        body = G.guarded_history(g, rng)
     elif mode == "unsatbiased":
         body = B.unsat_biased_body(g, rng, p_named=0.0, nested=False, n_named=job.get("n", 6), n_atoms=job.get("n_atoms", 4),
                                    histories=job.get("histories", True))
